@@ -18,7 +18,7 @@ ASSUMPTIONS = ['unitless (valueunit None) spectra stored in m / um / nm / angstr
                'all-zero spectra under preserve_power (0/0) are not generated',
                "Simpson's rule is exercised only with uniformly spaced centres and data, as the property scopes it"]
 PLAN = {'quick': {'gen': 8}, 'thorough': {'gen': 16, 'tests': 1, 'docs': 1}}
-REQUIRED_BUCKETS = ['bin:integer-centres', 'values:small-int', 'bin:zero-spectrum', 'integrate:bright-band-below-bounds', 'wave:integer-dtype', 'unit:m', 'unit:um', 'unit:nm', 'unit:angstrom', 'bin:unit-same', 'bin:unit-differs', 'integrate:trapz', 'integrate:simps', 'bin:trapz', 'bin:simps', 'ends:symmetric', 'ends:inside',
+REQUIRED_BUCKETS = ['bin:narrow-line', 'crop:outside-data', 'bin:integer-centres', 'values:small-int', 'bin:zero-spectrum', 'integrate:bright-band-below-bounds', 'wave:integer-dtype', 'unit:m', 'unit:um', 'unit:nm', 'unit:angstrom', 'bin:unit-same', 'bin:unit-differs', 'integrate:trapz', 'integrate:simps', 'bin:trapz', 'bin:simps', 'ends:symmetric', 'ends:inside',
                     'preserve:True', 'preserve:False', 'grid:nonuniform', 'op:crop', 'op:trim', 'op:pad', 'op:append',
                     'op:resample', 'op:raised', 'history:len>=6']
 REQUIRED_ANCHORS = ['probe:Spectrum.crop', 'probe:Spectrum.trim', 'probe:Spectrum.pad', 'probe:Spectrum.append',
@@ -87,6 +87,12 @@ def make_edit_oracle(op):
         if not invariant(ctx, target, op, info):
             return
         retained(ctx, target, pre, op, info)
+        if exc is not None and op == 'crop' and all(isinstance(a_, (int, float, np.floating, np.integer)) and np.isfinite(a_)
+                                                    for a_ in list(args[1:3]) + [kwargs.get(k_) for k_ in ('min_wave', 'max_wave') if k_ in kwargs]):
+            # a closed range that holds no sample keeps no sample: that is a result (the empty spectrum), not an error
+            ctx.check(False, 'crop:closed-range', f'crop|raises={type(exc).__name__}',
+                      f'crop with numeric bounds raised {type(exc).__name__}: {exc}', info)
+            return
         if exc is not None:
             # the property constrains the state that is left behind (well-formed, retained samples untouched), not
             # whether an operation that raised had an effect; the exact-range postconditions apply to returns only
@@ -319,9 +325,14 @@ def workload(ctx, lentil):
             ctx.check(False, 'bin:count', 'bin|integer-centres|simps|midpoints-truncated' if (method == 'simps' and fractional)
                       else f'bin|integer-centres|raises={type(e).__name__}', f'{type(e).__name__}: {e}', desc)
         # integer / boolean VALUES: integrals and bins as for the same numbers held as floats
-        dtv = [np.uint8, bool, np.int16, np.uint16, np.int8][i % 5]
-        vi = (rng.random(m) < 0.8).astype(dtv) if dtv is bool else \
-            rng.integers(int(np.iinfo(dtv).max * 0.5), np.iinfo(dtv).max, size=m, endpoint=True).astype(dtv)
+        dtv = [np.uint8, bool, np.int16, np.uint16, np.int8, np.float32, np.float16][i % 7]
+        if dtv is bool:
+            vi = (rng.random(m) < 0.8).astype(dtv)
+        elif np.dtype(dtv).kind == 'f':
+            # single / half precision values (large enough that sums in that precision would lose digits or overflow)
+            vi = rng.uniform(0.5, 1.0, size=m).astype(dtv) * dtv(16384 if dtv is np.float32 else 30000)
+        else:
+            vi = rng.integers(int(np.iinfo(dtv).max * 0.5), np.iinfo(dtv).max, size=m, endpoint=True).astype(dtv)
         ctx.case({'value-dtype': np.dtype(dtv).name, 'n': m, 'method': method}, ['values:small-int'])
         try:
             si, sf = S(w, vi), S(w, vi.astype(float))
@@ -332,7 +343,8 @@ def workload(ctx, lentil):
                           'the integral of integer / boolean values differs from the integral of the same numbers held as floats',
                           {'dtype': np.dtype(dtv).name, 'method': mth}, scale=abs(If) + 1e-300)
             cc = np.linspace(w[2], w[-3], 4)
-            bi = np.asarray(si.bin(cc, interp_method='trapz', preserve_power=True), float)
+            # (unit names are case-insensitive everywhere: 'NM' is nm)
+            bi = np.asarray(si.bin(cc, interp_method='trapz', preserve_power=True, **({'waveunit': ['NM', 'Nm', 'nm'][i % 3]} if i % 2 else {})), float)
             bf = np.asarray(sf.bin(cc, interp_method='trapz', preserve_power=True), float)
             ctx.close('bin:exact-linear', bi, bf, 1e-12, 'bin|value-dtype', 'bins of integer / boolean values differ from the bins of the same '
                       'numbers held as floats', {'dtype': np.dtype(dtv).name}, scale=float(np.max(np.abs(bf))) + 1e-300)
@@ -348,6 +360,36 @@ def workload(ctx, lentil):
                       'the bins of an all-zero spectrum are not all zero', {'bins': bz, 'preserve': preserve, 'method': method})
         except Exception as e:
             ctx.check(False, 'bin:nonnegative', f'bin|zero-spectrum|raises={type(e).__name__}', str(e), {'method': method})
+    # ---- a narrow line between coarse bin edges: lentil's bins are built from samples at the bin edges (and centres) only; when
+    # every one of them is zero the bins are all zero although the integral over the span is not (known finding, keyed by that
+    # mechanism: every edge / centre sample of the spectrum is exactly zero).  Any other shortfall is a violation.
+    for i in range(max(4, n // 40)):
+        w = np.arange(400., 701.)
+        c0 = float(rng.integers(452, 648))
+        hw = float(rng.integers(2, 9))
+        line = ((w >= c0 - hw) & (w <= c0 + hw)).astype(float) * float(rng.uniform(0.5, 3))
+        method = 'trapz' if i % 2 else 'simps'
+        ends = 'inside' if i % 4 < 2 else 'symmetric'
+        cen = np.arange(400., 701., 50.)
+        ctx.case({'narrow-line': c0, 'half-width': hw, 'method': method, 'ends': ends}, ['bin:narrow-line'])
+        try:
+            sp = S(w, line)
+            with np.errstate(all='ignore'):
+                b = np.asarray(sp.bin(cen, interp_method=method, ends=ends, preserve_power=True), float)
+            tot = float(sp.integrate(400, 700, method=method))
+            mids = cen[:-1] + np.diff(cen) / 2
+            # the points lentil samples: bin edges (trapezoid rule), plus the bin centres (Simpson's rule)
+            outer = [cen[0] - 25, cen[-1] + 25] if ends == 'symmetric' else [cen[0], cen[-1]]
+            pts = np.concatenate([mids, outer] + ([cen] + ([[cen[0] + 12.5, cen[-1] - 12.5]] if ends == 'inside' else [])
+                                                  if method == 'simps' else []))
+            all_zero = bool(np.all(sm.interp_linear(pts, w, line, 0.0) == 0))
+            key = 'bin|power|zero-bins|nonzero-integral' if (all_zero and np.all(b == 0)) else 'bin|power|narrow-line'
+            ctx.close('bin:power', np.array([b.sum()]), np.array([tot]), 1e-9, key,
+                      'with power preservation the bins do not sum to the integral of a narrow line over the span of the centres',
+                      {'line_centre': c0, 'half_width': hw, 'method': method, 'ends': ends, 'bins_sum': float(b.sum()), 'integral': tot},
+                      scale=abs(tot) + 1e-300)
+        except Exception as e:
+            ctx.check(False, 'bin:power', f'bin|narrow-line|raises={type(e).__name__}', str(e), {'line_centre': c0})
     # ---- histories ----------------------------------------------------------------------------------------
     nh = ctx.count(60, 500)
     for i in range(nh):
@@ -382,6 +424,10 @@ def workload(ctx, lentil):
                 if op == 'crop':
                     a = lo_ + span * rng.uniform(-0.2, 0.6)
                     b = a + span * rng.uniform(-0.1, 0.9)
+                    if rng.random() < 0.08:
+                        # a range that lies wholly above / below / between the samples keeps nothing
+                        a, b = [(hi_ + span, hi_ + 2 * span), (max(lo_ - 2 * span, 1e-3), max(lo_ - span, 2e-3))][int(rng.integers(0, 2))]
+                        ctx.bucket('crop:outside-data')
                     if rng.random() < 0.3 and cw.size:
                         a = float(cw[int(rng.integers(0, cw.size))])      # exactly on a sample (closed range)
                     if rng.random() < 0.4 and cw.size:
